@@ -655,7 +655,7 @@ def run(ctx):
     if not exe:
         C.violation(ctx, "build", {"kind": "harness-build-failed", "log": log[-3000:]}, True)
         return C.finish(ctx)
-    ncase = 110 if ctx.tier == "quick" else 1500
+    ncase = 80 if ctx.tier == "quick" else 1500
     cases = h1_case_set(ctx, ncase)
     res = run_h1_cases(ctx, exe, cases)
     nsteps = sum(len(d["impl"]) for d in res)
@@ -711,7 +711,7 @@ def run(ctx):
     if not okm:
         C.violation(ctx, "make", {"kind": "snapshot-build-failed", "log": mlog[-3000:]}, True)
     else:
-        nprog = 5 if ctx.tier == "quick" else 40
+        nprog = 4 if ctx.tier == "quick" else 40
         jobs = []
         for i in range(nprog):
             rng = ctx.rng
